@@ -49,7 +49,21 @@ MANIFEST = {
             "listed unmodelled (C15_gen_method_inventory, C15_modelled_iff_tied). Rig: additional surface `net` = a real Computer in a "
             "small network driven only through sim.pre_timestep / apply_request / apply_timestep with shutdown / startup / reset "
             "requests (durations 0..3) and node scans interleaved with file operations and agent actions in the same tick; the "
-            "counters are read from the simulation's describe_state() and through a HostObservation at the start and end of every tick.",
+            "counters are read from the simulation's describe_state() and through a HostObservation at the start and end of every tick. "
+            "Round 4: structural consistency is proved INDEPENDENT OF HEALTH - the item methods of File (restore, delete, scan, repair, "
+            "corrupt, check_hash) and Folder (restore, delete, check_hash, _restoring_timestep) are translated statement by statement "
+            "onto records that carry the structure together with health_status / visible status / num_access and proved equal to the "
+            "structural model for EVERY health value (C15_gen_file_methods, C15_gen_folder_methods, C15_gen_restoring_timestep, "
+            "C15_file_methods_ignore_health, C15_restore_clears_flag_for_every_health); the complete table of health-dependent branches "
+            "of the four classes is regenerated and none controls a return, the deleted flag, a dictionary or a call "
+            "(C15_gen_health_branches); seven more methods (get_file, remove_file, remove_file_by_name, get_folder, delete_file, "
+            "restore_file) are tied by translation instead of text. No item is lost across folders and across both layers, move_file "
+            "included (GKeeps: C15_no_item_lost_any_run, node level too). The initial state: HostNode.__init__'s create loop is modelled "
+            "for every configured folder list (duplicates, files listed twice, names colliding after the extension is appended) - Inv "
+            "and one-folder-per-file hold whether the loader completes or raises, and after setup_for_episode both counters are zero "
+            "(C15_initial_state; the missing reset was defect F-C15e, fixed). Rig: families H / health (corrupt -> delete -> restore at "
+            "file and folder level on every surface, with the number of corrupt-and-deleted items brought back MEASURED on the real "
+            "objects) and cfg (real Computer.from_config with generated folder lists, then setup_for_episode).",
     "note": "C15-specific: health status, red-scan timers, sizes and file types are not modelled (no influence on structure "
             "or response status); six leaf "
             "handlers without a validator still raise IndexError on a truncated path (modelled as `raised`; C05's matter); the power "
@@ -188,11 +202,11 @@ def run(ctx: Ctx):
             yield f"exhH{depth}:{k}", {"surface": ("fs", "action", "node")[k % 3], "restore_duration": 1,
                                       "ops": [["cfile", "fa", "a", False]] + ops}
         rng5 = ctx.rng.fork("fs-health")
-        for k in range(ctx.scale(800, 12000)):
+        for k in range(ctx.scale(600, 10000)):
             yield f"health:{k}", rig.gen_health_case(rng5, max_ops=ctx.scale(24, 40))
         # the configured initial state: HostNode.__init__ over generated folder lists, then setup_for_episode
         rng6 = ctx.rng.fork("fs-cfg")
-        for k in range(ctx.scale(500, 6000)):
+        for k in range(ctx.scale(400, 5000)):
             yield f"cfg:{k}", rig.gen_cfg_case(rng6)
         # node level: a real computer in a small network, power requests interleaved with file operations
         depth = ctx.scale(3, 4)
